@@ -18,6 +18,13 @@ class MyBase(BaseException):
     pass
 
 
+class Falsy(Exception):
+    """An exception whose instances are falsy (e.g. it carries a possibly empty collection of details)."""
+
+    def __len__(self) -> int:
+        return 0
+
+
 class Holder:
     """Per-path state shared with the (cached) program."""
 
@@ -51,7 +58,7 @@ class Program:
 
 
 FORMS = ["none", "class", "instance", "function", "method", "nonexc_factory", "invalid_int", "invalid_str",
-         "invalid_class", "base_class", "base_instance"]
+         "invalid_class", "base_class", "base_instance", "falsy_class", "falsy_instance"]
 ROLES = ["pre", "post", "inv"]
 KINDS = ["func", "method", "afunc", "amethod"]
 _CACHE = {}  # type: Dict[Tuple[Any, ...], Program]
@@ -89,6 +96,10 @@ def _build(role: str, kind: str, form: str, subset: Tuple[bool, ...]) -> Program
         error = MyErr
     elif form == "base_class":
         error = MyBase
+    elif form == "falsy_class":
+        error = Falsy
+    elif form == "falsy_instance":
+        error = Falsy("the instance")
     elif form == "instance":
         error = MyErr("the instance")
     elif form == "base_instance":
@@ -240,7 +251,7 @@ def run_err(role_i: int, kind_i: int, form_i: int, s0: bool, s1: bool, s2: bool,
     def one_call() -> Tuple[str, Any]:
         try:
             return ("ret", fresh(prog.call, x))
-        except (AssertionError, MyErr, MyBase, TypeError) as err:
+        except (AssertionError, MyErr, MyBase, TypeError, Falsy) as err:
             return ("raise", err)
 
     out1 = one_call()
@@ -260,12 +271,12 @@ def run_err(role_i: int, kind_i: int, form_i: int, s0: bool, s1: bool, s2: bool,
                     ok = False
                 elif prog.cond_name not in str(e):
                     ok = False
-            elif form in ("class", "base_class"):
+            elif form in ("class", "base_class", "falsy_class"):
                 if type(e) is not prog.error_obj:
                     ok = False
                 elif len(e.args) != 1 or not isinstance(e.args[0], str) or prog.cond_name not in e.args[0]:
                     ok = False
-            elif form in ("instance", "base_instance"):
+            elif form in ("instance", "base_instance", "falsy_instance"):
                 if e is not prog.error_obj:
                     ok = False
                 out2 = one_call()  # the same object again on the second violation
